@@ -38,12 +38,18 @@ def _build_and_audit(pid):
         facts = common.regenerate_facts()
         notes.append(f"facts: {facts}")
     except Exception as e:  # translator cannot parse its source: a broken tie
-        return {"<translator>": f"translator failed: {e}"}, notes, False
+        # the fact files of the last run that could be translated stay in place (the committed ones in a fresh copy):
+        # the driver built from them still reads emitted files, so the search for a failing input can run
+        translator_broken = f"translator failed: {e}"
+    else:
+        translator_broken = None
     r = common.run(["lake", "build", "flooverif"], cwd=common.LEAN_DIR, timeout=3000)
     if r.returncode != 0:
         log = r.stdout + r.stderr
         if "FlooVerif/Gen/" in log:
             return {"<facts>": "regenerated facts do not compile: " + log[-600:]}, notes, False
+        if translator_broken:
+            return {"<translator>": translator_broken}, notes, False
         raise InfraError("driver does not build:\n" + log[-3000:])
     ok, log = common.lake_build()
     if not ok:
@@ -83,6 +89,8 @@ def _build_and_audit(pid):
     hits = common.grep_forbidden()
     if hits:
         status["<source-audit>"] = "forbidden construct: " + "; ".join(hits[:5])
+    if translator_broken:
+        status["<translator>"] = translator_broken + " (model and theorems are those of the last tree that could be translated)"
     return status, notes, True
 
 
